@@ -1,7 +1,7 @@
 """
 Re-implementation of the CommonMark test driver's normalize.py (whitespace
 collapsed outside <pre>, stripped around block-level tags, attributes sorted,
-href/src unquote->quote, character references canonicalised).  Both sides of
+character references canonicalised; href / src compared as written, see LENIENT_URLS).  Both sides of
 every comparison pass through the same function, so it can only merge outputs,
 never split them.
 """
@@ -19,6 +19,11 @@ BLOCK_TAGS = frozenset([
     'section', 'dl', 'table', 'td', 'dt', 'tbody', 'embed', 'textarea', 'fieldset', 'tfoot', 'figcaption',
     'th', 'figure', 'thead', 'footer', 'tr', 'form', 'ul', 'h1', 'h2', 'h3', 'h4', 'h5', 'h6', 'video',
     'script', 'style'])
+
+
+# the specification's driver means to compare href / src after unquote -> quote, but its test is on the attribute *value*
+# (`if v in ['href', 'src']`), so it never does: URLs are compared as written, like every other attribute
+LENIENT_URLS = False
 
 
 class _Norm(HTMLParser):
@@ -70,7 +75,7 @@ class _Norm(HTMLParser):
         for k, v in sorted(attrs, key=lambda kv: (kv[0], kv[1] or '')):
             s += ' ' + k
             if v is not None:
-                if k in ('href', 'src'):
+                if k in ('href', 'src') and LENIENT_URLS:
                     s += '="' + urllib.parse.quote(urllib.parse.unquote(v), safe='/') + '"'
                 else:
                     s += '="' + _html.escape(_html.unescape(v), quote=True) + '"'
